@@ -18,6 +18,10 @@ ASSUMPTIONS = ["option expansions: REPEAT = all in-range translations, H/V mirro
                "a chord filter accepts a window iff its whole size vector is a row of the expansion"]
 
 
+def pinned(tier):
+    return [dict(cls="repo_test_suite", select=['tests/algorithm_tests/pattern'])] if tier == "thorough" else []
+
+
 def gen(rng, tier, k):
     keys = rng.choice([4, 4, 5, 7, 9])
     n = rng.choice([0, 1, 3, 8, 15, 25, 40])
@@ -59,6 +63,9 @@ def setup(ctx):
 
 
 def run(ctx, case):
+    if case.get("cls") == "repo_test_suite":
+        from rv.suite import run_repo_tests
+        return run_repo_tests(ctx, case.get("select"))
     import random
 
     from reamber.algorithms.pattern import Pattern
